@@ -532,4 +532,28 @@ theorem parentLower_of_blocks (e : Env)
     have he : e.block b = blk := by unfold Env.block; rw [hl]; rfl
     rw [he]; exact this
 
+/-- `undoAll_pointer` for both values of the prune flag -/
+theorem undoAll_pointer' (e : Env) (prune : Bool) (l : List Nat) : ∀ (st : St),
+    (walk.undoAll e prune l st).2 = true →
+    (walk.undoAll e prune l st).1.pointer =
+      match l.getLast? with
+      | none => st.pointer
+      | some bi => (e.block bi).pre.getD 0 := by
+  induction l with
+  | nil => intro st _; rfl
+  | cons bi rest ih =>
+    intro st h
+    have hdef : walk.undoAll e prune (bi :: rest) st =
+        if (!prune && decide (((e.block bi).height : Int) ≤ st.irrev)) = true then (st, false)
+        else walk.undoAll e prune rest (undoBlock e st (e.block bi) prune) := by
+      rw [walk.undoAll]
+    rw [hdef] at h ⊢
+    by_cases hc : (!prune && decide (((e.block bi).height : Int) ≤ st.irrev)) = true
+    · rw [if_pos hc] at h; cases h
+    · rw [if_neg hc] at h ⊢
+      rw [ih _ h, List.getLast?_cons]
+      cases rest.getLast? with
+      | none => rfl
+      | some x => rfl
+
 end XV.Chain
